@@ -46,6 +46,29 @@ CHECKS['C08'] = (
     'Trusts vv/ref/updaters.py. merge only on flat dicts; magnitudes compared at rel 1e-12; dict_value update-unmodified clause '
     'only when one update hits the variable.')
 
+CHECKS['C01'] = (
+    'Hypothesis-generated schedules; history invariant over a totally ordered event log (exactly-once / on-time / in-order application, observable sum form)',
+    'Generated search over timestep scripts, condition scripts and call sequences; unique tokens and recording updaters make every '
+    'application observable with its simulated time, so lost, duplicated, early, late or reordered updates are detected for any schedule '
+    'within the bounded sizes.',
+    'Serial processes only (parallel covered through C13 equivalence). Interval start after a quiet poll = time of the next poll; '
+    're-poll time of quiet processes not asserted. <=4 processes, <=5 calls.')
+CHECKS['C02'] = (
+    'Hypothesis-generated schedules ending in forced completion; interval accounting invariant rebuilt from the event log, plus vivarium Clock as differential witness',
+    'Generated search over timesteps that do not divide run lengths, chunked calls, initial times and precisions; checks timestep '
+    'argument == interval length, contiguity, sum == elapsed, fronts complete.',
+    'No condition-false polls (quantifier is over timesteps and calls). Decimal-grid times compared at 1e-9. <=4 processes.')
+CHECKS['C03'] = (
+    'Hypothesis-generated adaptive poll/condition scripts (incl. empty and all-quiet composites); clock invariants over the event log, deterministic poll budget for termination',
+    'Generated search over answer sequences; global_time is read in every callback/emit/return: monotone, bounded by the call end, exact '
+    'landing, on the precision grid; non-termination is detected by a deterministic poll budget (20x the one-pass-per-event bound) and a watchdog.',
+    'Termination only up to the iteration bound. One known finding (F03b, deferred process re-polled into the past) is excluded by signature and counted.')
+CHECKS['C04'] = (
+    'history invariant (same-instant invocations and same-layer steps see one committed whole-state snapshot, no apply in between) + metamorphic listing-permutation relation between two engine runs',
+    'Generated schedules with whole-hierarchy snapshots taken inside callbacks; and pairs (canonical, permuted listing of processes/steps/flow/'
+    'topology/ports/initial state) of composites with state-dependent but commuting updates whose trajectories must be identical.',
+    'Derivers are not permuted (order-sensitive by specification). Updates are integer accumulates / sets on distinct variables.')
+
 NOT_YET = 'check not built yet in this session (planned, see DESIGN.md section 8)'
 
 
